@@ -264,7 +264,10 @@ func (h *DNSHandler) ProcessNBNS(host *packet.Host, ether packet.Ether, payload 
 				return name, err
 			}
 			table, err := processNBNSNodeStatusResponse(r.Data)
-			if err == nil && len(table) > 0 {
+			if err != nil {
+				return name, err // a truncated node name array is refused, not read as "no name"
+			}
+			if len(table) > 0 {
 				name.Name = table[0]
 				Logger.Msg("nbns new entry").String("name", name.Name).Write()
 				return name, nil
